@@ -727,6 +727,7 @@ func (p *Parser) parseMapExpression() (Node, error) {
 
 	// Parse the map key-value pairs
 	items := make(map[Node]Node)
+	var keys []Node
 
 	// Check if there are any items
 	if p.tokenIndex < len(p.tokens) &&
@@ -734,10 +735,19 @@ func (p *Parser) parseMapExpression() (Node, error) {
 			p.tokens[p.tokenIndex].Value == "}") {
 
 		for {
-			// Parse key expression
-			keyExpr, err := p.parseExpression()
-			if err != nil {
-				return nil, err
+			// Parse key expression; a bare name directly before the colon is the
+			// key's text ({a: 1} is {'a': 1}), anything else is evaluated
+			var keyExpr Node
+			var err error
+			if p.tokenIndex+1 < len(p.tokens) && p.tokens[p.tokenIndex].Type == TOKEN_NAME &&
+				p.tokens[p.tokenIndex+1].Type == TOKEN_PUNCTUATION && p.tokens[p.tokenIndex+1].Value == ":" {
+				keyExpr = NewLiteralNode(p.tokens[p.tokenIndex].Value, p.tokens[p.tokenIndex].Line)
+				p.tokenIndex++
+			} else {
+				keyExpr, err = p.parseExpression()
+				if err != nil {
+					return nil, err
+				}
 			}
 
 			// Expect colon separator
@@ -756,6 +766,7 @@ func (p *Parser) parseMapExpression() (Node, error) {
 
 			// Add key-value pair to map
 			items[keyExpr] = valueExpr
+			keys = append(keys, keyExpr)
 
 			// Check for comma separator between items
 			if p.tokenIndex < len(p.tokens) &&
@@ -785,6 +796,7 @@ func (p *Parser) parseMapExpression() (Node, error) {
 			line:     line,
 		},
 		items: items,
+		keys:  keys,
 	}, nil
 }
 
